@@ -632,6 +632,42 @@ class FnWeaver:
         self.edits.append((end, end, [(' }', 'repo', self.rel, self.line_at(end))]))
         self.rules.add('D10')
 
+    def closure_tuple_params(self):
+        """D16 (automatic): a closure whose single parameter is a tuple pattern, `|(a, b)| E`, becomes `|__cpK| { let (a, b) = __cpK; E }`
+        (Verus accepts only variables as closure parameters; same bindings under default binding modes)."""
+        s = self.src
+        p = self.parts
+        k = s.next_code(p['body_open'])
+        n = 0
+        while k is not None and k < p['body_close']:
+            if s.is_p(k, '|'):
+                pk = s.prev_code(k)
+                nk = s.next_code(k)
+                if (s.is_p(pk, '(') or s.is_p(pk, ',')) and nk is not None and s.is_p(nk, '('):
+                    close = s.matches()[nk]
+                    bar = s.next_code(close)
+                    if bar is not None and s.is_p(bar, '|'):
+                        n += 1
+                        var = '__cp%d' % n
+                        pat = self.text[s.toks[nk][1]:s.toks[close][2]]
+                        j = s.next_code(bar)
+                        last = j
+                        while j is not None:
+                            if s.is_p(j, '(') or s.is_p(j, '[') or s.is_p(j, '{'):
+                                j = s.matches()[j]
+                            elif s.is_p(j, ')') or s.is_p(j, ','):
+                                break
+                            last = j
+                            j = s.next_code(j)
+                        end = s.toks[last][2]
+                        a, b = s.toks[nk][1], s.toks[bar][2]
+                        ln = self.line_at(a)
+                        self.edits.append((a, b, [('%s| { let %s = %s; ' % (var, pat, var), 'repo', self.rel, ln)]))
+                        self.edits.append((end, end, [(' }', 'repo', self.rel, self.line_at(end))]))
+                        self.rules.add('D16')
+                        k = bar
+            k = s.next_code(k)
+
     # -- hints anchored by regex on a source line
     def add_hint(self, where, regex, nth, lines, tline):
         rx = re.compile(regex)
@@ -687,6 +723,51 @@ class FnWeaver:
         self.edits.append((b, b, [(';\n', 'repo', self.rel, self.line_at(a)), ('\n'.join(lines) + '\n', 'tmpl', self.tmpl_file, tline),
                                   (ind + var, 'repo', self.rel, self.line_at(a))]))
         self.rules.add('D15')
+
+    def let_mut_arg(self, regex, nth, name):
+        """D17: on the statement line matched by `regex`, the argument `&mut EXPR` of the outermost call becomes a named local:
+               RECV.method(&mut EXPR);   ->   let mut NAME = EXPR; RECV.method(&mut NAME);
+        (let-introduction of a temporary; the receiver is a plain local that EXPR does not mention, so evaluation order is unaffected)."""
+        rx = re.compile(regex)
+        s = self.src
+        p = self.parts
+        body_a = s.toks[p['body_open']][2]
+        body_b = s.toks[p['body_close']][1]
+        pos = 0
+        hits = []
+        for ln in self.text.split('\n'):
+            a, b = pos, pos + len(ln)
+            pos = b + 1
+            if a >= body_a and b <= body_b and rx.search(ln):
+                hits.append((a, b, ln))
+        if len(hits) < nth:
+            self.lost.append('letarg /%s/ #%d in %s' % (regex, nth, self.qual))
+            return
+        a, b, ln = hits[nth - 1]
+        # first `(` on the line followed by `& mut`
+        k = None
+        for t_i in s.code:
+            t = s.toks[t_i]
+            if a <= t[1] < b and s.is_p(t_i, '('):
+                n1 = s.next_code(t_i)
+                n2 = s.next_code(n1) if n1 is not None else None
+                if n1 is not None and s.is_p(n1, '&') and n2 is not None and s.tok_text(n2) == 'mut':
+                    k = t_i
+                    break
+        if k is None:
+            self.lost.append('letarg /%s/ #%d in %s: no `(&mut ...)` argument on that line' % (regex, nth, self.qual))
+            return
+        close = s.matches()[k]
+        n2 = s.next_code(s.next_code(k))
+        e_a, e_b = s.toks[s.next_code(n2)][1], s.toks[close][1]
+        expr = self.text[e_a:e_b]
+        ind = ln[:len(ln) - len(ln.lstrip())]
+        stmt_a = a + len(ind)
+        lno = self.line_at(a)
+        self.edits.append((stmt_a, stmt_a, [('let mut %s = %s;\n%s' % (name, expr.strip(), ind), 'repo', self.rel, lno),
+                                            ('let ghost %s_v = %s@;\n%s' % (name, name, ind), 'tmpl', self.tmpl_file, 0)]))
+        self.edits.append((e_a, e_b, [(name, 'repo', self.rel, lno)]))
+        self.rules.add('D17')
 
     # -- rename the function (used for outlined copies) -----------------------------
     def render(self, out, attrs=()):
@@ -906,6 +987,7 @@ def weave(unit_path):
                 fw.drop_logs()
                 fw.deref_for_patterns()
                 fw.local_consts_to_let()
+                fw.closure_tuple_params()
             fw.rename_underscore_params()
             attrs = []
             safety = list(info['props'])
@@ -977,6 +1059,11 @@ def weave(unit_path):
                 elif sd == 'closure':
                     cn, hdr = sarg.split(None, 1)
                     fw.annotate_closure(int(cn), hdr)
+                elif sd == 'letarg':
+                    mm2 = re.match(r'/(.*)/\s*(\d+)?\s+(\w+)$', sarg)
+                    if not mm2:
+                        raise WeaveError('%s:%d: bad letarg' % (trel, i + 1))
+                    fw.let_mut_arg(mm2.group(1), int(mm2.group(2) or 1), mm2.group(3))
                 elif sd == 'tail':
                     mm2 = re.match(r'/(.*)/\s*(\d+)?$', sarg)
                     if not mm2:
